@@ -58,7 +58,13 @@ func TestVerifC02Pass(t *testing.T) {
 			used[key] = true
 			ls = append(ls, l)
 		}
-		if r.Chance(1, 3) {
+		directed := r.Chance(1, 10)
+		if directed {
+			// a TLS listener without hostname next to an HTTPS listener of the port (both conflicted, not programmed) and a valid
+			// wildcard listener: a Route on the conflicted listener must not take a hostname away from a Route on the valid one
+			ls = []lis{{name: "t0", host: "", port: 9443}, {name: "t1", host: "*.example.com", port: 9443}}
+		}
+		if r.Chance(1, 3) || directed {
 			ls = append(ls, lis{name: "h0", host: "secure.site.io", port: 9443, https: true})
 			evs = append(evs, w.Apply(vsSecret{NS: "default", Name: "cert-a", OK: true}.obj()))
 		}
@@ -101,7 +107,7 @@ func TestVerifC02Pass(t *testing.T) {
 			svc      int
 		}
 		var rts []rt
-		for k, nk := 0, 1+r.Intn(4); k < nk; k++ {
+		for k, nk := 0, 1+r.Intn(4)+map[bool]int{true: 1, false: 0}[directed]; k < nk; k++ {
 			x := rt{name: fmt.Sprintf("tr%d", k), ts: int64(r.Intn(3)), svc: r.Intn(3)}
 			for h, nh := 0, r.Intn(3); h < nh; h++ {
 				x.hosts = append(x.hosts, rhosts[r.Intn(len(rhosts))])
@@ -116,6 +122,11 @@ func TestVerifC02Pass(t *testing.T) {
 				if x.sections[0] == x.sections[1] {
 					x.sections = x.sections[:1]
 				}
+			}
+			if directed && k < 2 {
+				x.hosts = []string{"*.app.example.com"}
+				x.ts = int64(k)
+				x.sections = [][]string{{"t0"}, {""}}[k]
 			}
 			rts = append(rts, x)
 			tr := &v1alpha2.TLSRoute{ObjectMeta: metav1.ObjectMeta{Namespace: "default", Name: x.name, CreationTimestamp: vsTime(x.ts)},
